@@ -29,6 +29,7 @@ class Check(object):
         self.obs = []          # every obligation examined
         self.findings = []     # failed obligations
         self.infos = []
+        self.deferred = []
         self.extra = {}
         self.exhaustive = None
         self.t0 = time.time()
@@ -64,10 +65,15 @@ class Check(object):
     def need(self, rule, count, minimum, what):
         """Vacuity guard: fewer instances than confirmed by hand => exit 2."""
         if count < minimum:
-            raise AnalysisError(
+            # not fatal at once: rules further on may show *why* the
+            # instances are gone (a changed function is a violation, not a
+            # broken analysis); finish() fails the run closed if none does
+            self.deferred.append(
                 '%s: only %d instance(s) of "%s" found, at least %d expected '
                 '(anchor moved or rule no longer matches the code)'
                 % (rule, count, what, minimum))
+            return False
+        return True
 
     def has_new_findings(self):
         known = load_known()
@@ -113,6 +119,11 @@ class Check(object):
                 print('    found   : %s' % f['found'])
             if 'required' in f:
                 print('    required: %s' % f['required'])
+        if self.deferred and not new:
+            # vacuous rules and nothing else wrong: the analysis is broken
+            raise AnalysisError('; '.join(self.deferred[:3]))
+        for d in self.deferred:
+            print('ANALYSIS-NOTE property=%s %s' % (self.pid, d))
         self._write_evidence(len(new), seen_known)
         n_ok = sum(1 for o in self.obs if o['ok'])
         print('%s %s: %d obligations, %d discharged, %d known finding(s), '
